@@ -374,6 +374,16 @@ func c20Read(c *Ctx) {
 					k.Failf("readncbi", "ReadNCBI result differs from the table: %s", d)
 					return
 				}
+				// the same text through an io.Reader of another dynamic type or state (partly consumed, seeked, a section …)
+				if zn, zm, zerr := ncbiThroughZoo(k, r, text); zerr != nil {
+					k.Input("reader", zn)
+					k.Failf("readncbi", "ReadNCBI failed on a valid table read from %s: %v", zn, zerr)
+					return
+				} else if d := sameMatrix(zm, truth); d != "" {
+					k.Input("reader", zn)
+					k.Failf("readncbi", "ReadNCBI from %s differs from the table: %s", zn, d)
+					return
+				}
 				k.Count("tables_read", 1)
 				k.Evals(1)
 				if len(truth) >= 2 {
